@@ -53,6 +53,13 @@ func VerifTeardown() {
 		if p := verifParam("pin_first", -1); p >= 0 && i == 0 {
 			verifAssume(script[i] == p)
 		}
+		if p := verifParam("pin_second", -1); p >= 0 && i == 1 {
+			verifAssume(script[i] == p)
+		}
+		if verifParam("noise_second", 0) == 1 && i == 1 {
+			// second messages the handler ignores: stop of an unknown id, malformed JSON, unknown type
+			verifAssume(script[i] == 2 || script[i] == 4 || script[i] == 5)
+		}
 	}
 	go func() {
 		if !client.vSend(vClientMsg("connection_init", "", "")) {
